@@ -71,6 +71,22 @@ class EigCmp(SV):
         self.mat, self.op, self.bound = mat, op, bound
 
 
+class EigAbs(SV):
+    """np.abs(eigenvalues of mat)."""
+
+    def __init__(self, mat):
+        self.mat = mat
+
+
+norm2 = z3.Function("norm2", Mat, z3.RealSort())  # spectral radius = 2-norm for symmetric matrices
+
+
+def eig_axioms(t):
+    """D-eig: |lam_min| <= max |lambda| = norm2 >= 0."""
+    lm, nr = lam_min(t), norm2(t)
+    return z3.And(nr >= 0, lm <= nr, -lm <= nr)
+
+
 def shape_eq(a, b):
     return z3.And(to_int(a[0]) == to_int(b[0]), to_int(a[1]) == to_int(b[1]))
 
@@ -138,7 +154,37 @@ def install(M):
             return v
         raise Unsupported(f"np.any({v!r})")
 
+    def np_abs(I, args, kw):
+        v = args[0]
+        if isinstance(v, EigVals):
+            return EigAbs(v.mat)
+        if is_numeric(v):
+            return I.models.m_abs(I, [v], {})
+        raise Unsupported(f"np.abs({v!r})")
+
+    def np_max(I, args, kw):
+        v = args[0]
+        if isinstance(v, EigAbs):
+            t = v.mat.term
+            I.path.define(eig_axioms(t), "D-eig: spectrum bounds (|lam_min| <= norm2, norm2 >= 0)")
+            # `initial=0.0` only matters for an empty spectrum (0x0 matrix), where norm2 = 0 as well
+            return SReal(norm2(t))
+        raise Unsupported(f"np.max({v!r})")
+
+    def np_array(I, args, kw):
+        v = args[0]
+        if isinstance(v, PyList) and len(v.items) == 1 and isinstance(v.items[0], (SSeq, PyList)):
+            row = v.items[0]
+            from .interp import as_seq2
+
+            row = as_seq2(row)
+            return SMat(z3.Const(I.path.names.fresh("arr"), Mat), cells=lambda i, j: to_real(row.at(j)), shape=(1, row.length), ident=object())
+        raise Unsupported(f"np.array({v!r})")
+
     np_attrs = {
+        "array": Builtin("np.array", np_array),
+        "abs": Builtin("np.abs", np_abs),
+        "max": Builtin("np.max", np_max),
         "zeros": Builtin("np.zeros", np_zeros),
         "eye": Builtin("np.eye", np_eye),
         "matmul": Builtin("np.matmul", np_matmul),
